@@ -191,5 +191,5 @@ Example insert_sound_example :
   let t := T 0 [T 1 [] []; T 2 [T 3 [] []] []] [] in
   let e := EInsert [(Body, 1)] Before [T 7 [] []] in let c := CGap [(Body, 1); (Body, 0)] After in
   valid_edit t e /\ valid_cursor t c /\
-  exists t' c', apply_edit e t = Some t' /\ fwd_edit false e t c = Ok c'.
+  exists t' c', apply_edit e t = Some t' /\ fwd_edit code_now e t c = Ok c'.
 Proof. vm_compute. repeat split; eauto. Qed.
